@@ -433,6 +433,16 @@ func (m *Manager) lock() {
 				acctInfo.acctKeyPriv.Zero()
 			}
 			acctInfo.acctKeyPriv = nil
+
+			// The cached last addresses of the account are not
+			// necessarily part of the address cache cleared below,
+			// so remove their clear text private keys here.
+			if a, ok := acctInfo.lastExternalAddr.(*managedAddress); ok {
+				a.lock()
+			}
+			if a, ok := acctInfo.lastInternalAddr.(*managedAddress); ok {
+				a.lock()
+			}
 		}
 
 		// Clear and remove all private keys cached by derivation path,
